@@ -1448,12 +1448,12 @@ sexp sexp_sub (sexp ctx, sexp a, sexp b) {
     /* ... FALLTHROUGH ... */
   case SEXP_NUM_RAT_RAT:
     tmp2 = sexp_make_ratio(ctx, sexp_ratio_numerator(b), sexp_ratio_denominator(b));
-    if (sexp_bignump(sexp_ratio_numerator(tmp2)))
-      sexp_ratio_numerator(tmp2) = sexp_copy_bignum(ctx, NULL, sexp_ratio_numerator(tmp2), 0);
-    sexp_negate_exact(sexp_ratio_numerator(tmp2));
+    /* not sexp_negate_exact: the most negative fixnum has no fixnum negation */
+    sexp_ratio_numerator(tmp2) = sexp_mul(ctx, sexp_ratio_numerator(tmp2), SEXP_NEG_ONE);
     r = sexp_ratio_add(ctx, a, tmp2);
     if (negatep) {
-      sexp_negate_maybe_ratio(r);
+      tmp1 = r;
+      r = sexp_mul(ctx, tmp1, SEXP_NEG_ONE);
     }
     break;
 #endif
